@@ -9,6 +9,8 @@ AttrTable}.lean.
 import Emboss.Lemmas.ConstraintsTypes
 import Emboss.Lemmas.ConstraintsDefaults
 import Emboss.Lemmas.ConstraintsReq
+import Emboss.Lemmas.ConstraintsLookup
+import Emboss.Lemmas.ConstraintsLoc
 import Emboss.Generated.Prelude
 namespace Emboss.Constraints
 open Emboss.Generated Emboss.Generated.Prelude
@@ -113,10 +115,10 @@ theorem exGood_wf : ∀ c ∈ allTypes exGood, TypeWF c.2 := by
       simp [TypeInfo.fields, exStruct] at hf
       subst hf
       exact ⟨2, 2, rfl, rfl⟩
-    · intro v hv; simp [getAttr, exStruct] at hv
+    · intro v hv; simp [getAttr, Attr.named, exStruct] at hv
   · refine ⟨fun fs h => by simp [exUInt] at h, ?_, ?_⟩
     · intro f hf; simp [TypeInfo.fields, exUInt] at hf
-    · intro v hv; simp [getAttr, exUInt] at hv
+    · intro v hv; simp [getAttr, Attr.named, exUInt] at hv
 
 example : check exGood = [] := by decide +kernel
 example : Realisable exGood :=
@@ -255,23 +257,75 @@ theorem C14_reserved_words (n : String) (e : EK) :
 example : isReserved "int" = true ∧ isReserved "class" = true ∧ isReserved "lambda" = true ∧
     isReserved "length" = false ∧ isReserved "Int" = false := by decide +kernel
 
+/-! ### Error locations of the attribute-table rules -/
+
+/-- **Where the attribute-table errors point.**  For every attribute list (of a module, type
+definition, field or enum value) and scope table: the located check (`checkAttrListL`, tied to
+the real error locations by the correspondence) reports exactly the kinds of `checkAttrList` —
+so everything above about acceptance applies to it — and every error points into the list it
+was given: at one of ITS attributes (index in range), a duplicate's note at an EARLIER
+attribute of the same list; never at another definition. -/
+theorem C14_attr_errors_located (specs : List (String × Bool)) (attrs : List Attr) :
+    (checkAttrListL specs [] 0 attrs).map (·.k) = checkAttrList specs [] attrs ∧
+    ∀ e ∈ checkAttrListL specs [] 0 attrs,
+      e.idx < attrs.length ∧ ∀ j, e.note = some j → j < e.idx := by
+  refine ⟨checkAttrListL_kinds specs attrs [] 0, fun e he => ?_⟩
+  have h := checkAttrListL_where specs attrs [] 0 (by intro s hs; cases hs) e he
+  exact ⟨by omega, h.2.2⟩
+
+/-- non-vacuity: on a field, `[byte_order: 3] [(cpp) x: 1] [foo: 1] [byte_order: "Null"]
+[$default byte_order: "Null"]` gives: wrong value at the VALUE of #0, unknown attribute at the
+NAME of #2 (the qualified #1 is skipped), duplicate at the WHOLE of #3 with the note at #0, "may
+not be defaulted" at the NAME of #4. -/
+example :
+    checkAttrListL AttrTable.physicalFieldAttrs [] 0
+      [⟨"byte_order", "", false, .int (some 3)⟩, ⟨"x", "cpp", false, .int (some 1)⟩,
+       ⟨"foo", "", false, .int (some 1)⟩, ⟨"byte_order", "", false, .str "Null"⟩,
+       ⟨"byte_order", "", true, .str "Null"⟩]
+    = [⟨.attrChoice "byte_order", 0, .value, none⟩, ⟨.unknownAttr "foo", 2, .name, none⟩,
+       ⟨.dupAttr "byte_order", 3, .whole, some 0⟩, ⟨.noDefault "byte_order", 4, .name, none⟩] := by
+  decide +kernel
+
+/-- **Where the field-attribute errors point** (`_verify_field_attributes`).  The located
+check reports exactly the kinds of `verifyByteOrder ++ verifyRequires`; "byte_order required" is
+reported at the field itself; a `[requires]` placement error at the value of the field's OWN
+`[requires]` attribute (an index into its attribute list) — never at another field or scope.
+("not allowed" / "may only be 'Null'" point at the field's own byte_order attribute, or, for a
+`Null` inherited from a `$default`, at that `$default`: `FieldAt.inherited`.) -/
+theorem C14_field_errors_located (p : Program) (d : Option AVal) (t : TypeInfo) (f : Field) :
+    (verifyFieldL p d t f).map (·.1) = verifyByteOrder p d t f ++ verifyRequires p f ∧
+    (∀ e ∈ verifyFieldL p d t f, e.1 = .boRequired → e.2 = .field) ∧
+    (∀ k ∈ verifyRequires p f, k = .requiresArray ∨ k = .requiresType →
+      ∃ i, fieldErrAt f k = .attrValue i ∧ i < f.attrs.length) := by
+  refine ⟨verifyFieldL_kinds p d t f, ?_, fun k hk hr => requires_located p f k hk hr⟩
+  intro e he hb
+  simp only [verifyFieldL, List.mem_map] at he
+  obtain ⟨k, _, rfl⟩ := he
+  simp only at hb
+  subst hb
+  rfl
+
+/-- non-vacuity: `0 [+2] UInt x` without byte order → at the field; `[requires: …]` (attribute
+#1) on an array → at the value of attribute #1; `[byte_order: "Null"]` (attribute #0) on a 2-byte
+field → at the value of attribute #0; the same `Null` inherited from the module's `$default` →
+`inherited`. -/
+example :
+    verifyFieldL exNoByteOrder none (exStruct [exField 2 []] []) (exField 2 []) = [(.boRequired, .field)] ∧
+    verifyFieldL exGood (some (.str "LittleEndian")) (exStruct [] [])
+      { exField 2 [⟨"text_output", "", false, .str "Emit"⟩, ⟨"requires", "", false, .bool none false⟩]
+        with ty := .array (.atomic 0 (some 8)) (.const 2) } = [(.requiresArray, .attrValue 1)] ∧
+    verifyFieldL exGood none (exStruct [] []) (exField 2 [⟨"byte_order", "", false, .str "Null"⟩])
+      = [(.boNull, .attrValue 0)] ∧
+    verifyFieldL exGood (some (.str "Null")) (exStruct [] []) (exField 2 []) = [(.boNull, .inherited)] := by
+  decide +kernel
+
 /-! ### Attribute lookups and the qualifier quirk -/
 
 /-- On an attribute list without back-end-qualified attributes the front end's lookup is the
 documented one. -/
 theorem C14_lookup_unqualified (attrs : List Attr) (n : String) (h : UnqAttrs attrs) :
-    getAttr attrs n = declared attrs n := by
-  unfold getAttr declared
-  congr 1
-  induction attrs with
-  | nil => rfl
-  | cons a rest ih =>
-    have ha : a.backEnd = "" := h a (List.mem_cons_self ..)
-    have hr : UnqAttrs rest := fun b hb => h b (List.mem_cons_of_mem _ hb)
-    simp only [List.find?_cons, ha, and_true]
-    split
-    · rfl
-    · exact ih hr
+    getAttr attrs n = declared attrs n :=
+  getAttr_eq_declared attrs n h
 
 /-- COUNTEREXAMPLE (real defect, replayed by the harness; open finding): the model — like the
 real front end — accepts a 2-byte `UInt` whose only byte order is the back-end-qualified
